@@ -7,6 +7,7 @@ import (
 	"runtime/debug"
 	"strconv"
 	"testing"
+	"time"
 )
 
 type Case struct {
@@ -119,7 +120,22 @@ func RunCases(t *testing.T) {
 	}
 	results := make([]CaseResult, len(cases))
 	for i := range cases {
-		results[i] = runCase(&cases[i])
+		// per-case watchdog: a case that does not finish is reported, the
+		// remaining cases still run (the stuck goroutine is abandoned)
+		ch := make(chan CaseResult, 1)
+		go func(c *Case) { ch <- runCase(c) }(&cases[i])
+		select {
+		case r := <-ch:
+			results[i] = r
+		case <-time.After(45 * time.Second):
+			results[i] = CaseResult{Status: "timeout", Msg: "case did not finish within 45 s"}
+			// runCase state is per-process: later cases must not share it with the stuck one
+			cur = *new(struct {
+				c     *Case
+				count map[string]int
+				outs  [][]string
+			})
+		}
 	}
 	b, _ := json.Marshal(results)
 	if err := os.WriteFile(out, b, 0644); err != nil {
